@@ -129,13 +129,20 @@ impl World {
     }
 
     pub fn violate(&mut self, property: &str, key: impl Into<String>, oracle: &str, detail: impl Into<String>) {
-        self.rep.violations.push(Violation {
-            property: property.to_string(),
-            key: key.into(),
-            oracle: oracle.to_string(),
-            detail: detail.into(),
-            op_index: self.op_index,
-        });
+        let key = key.into();
+        let detail = detail.into();
+        // in a build with non-default limits, a key inside the limits that misbehaves in any of these
+        // ways also breaks C14 ("same behaviour as the default build")
+        if !crate::BUILD_IS_DEFAULT && ["C01", "C03", "C04", "C05", "C07", "C08", "C10"].contains(&property) {
+            self.rep.violations.push(Violation {
+                property: "C14".to_string(),
+                key: format!("{}:{}", property, key),
+                oracle: oracle.to_string(),
+                detail: format!("[build: {} levels, heights {:?}, min w {:?}] {}", crate::BUILD_MAX_LEVELS, crate::BUILD_TREE_HEIGHTS, crate::BUILD_MIN_W, detail),
+                op_index: self.op_index,
+            });
+        }
+        self.rep.violations.push(Violation { property: property.to_string(), key, oracle: oracle.to_string(), detail, op_index: self.op_index });
     }
     pub fn event(&mut self, s: String) {
         self.rep.event_hash = fnv1a(format!("{:016x}|{}", self.rep.event_hash, s).as_bytes());
@@ -193,6 +200,9 @@ impl World {
             _ => make_aux(*len, fill),
         });
         let aux_before = auxbuf.clone();
+        if let Some(b) = &aux_before {
+            self.fault(&format!("keygen-aux-buffer-{}", aux_class(b)));
+        }
         lib::meter_reset();
         let out = lib::keygen(cfg.hash, &cfg.params, &cfg.seed, auxbuf.as_mut());
         let meter_aux = lib::meter_read();
@@ -360,6 +370,9 @@ impl World {
         for p in self.procs.iter_mut().filter(|p| p.key == ki) {
             p.mem = None;
         }
+        // state injection starts a new hypothetical history of this key: what earlier histories
+        // released does not count against it
+        self.ledger.retain(|k, _| k.0 != ki);
         self.event(format!("inject k{} counter={}", ki, counter));
         self.records.push(None);
     }
@@ -815,7 +828,12 @@ impl World {
                 }
                 if !cb_log.is_empty() {
                     self.violate(prop, "cb-on-bad-key", "refusal", format!("callback invoked for a {}", what));
-                    self.violate("C04", "cb-on-bad-key", "callback-automaton", format!("callback invoked although no signature could be produced ({})", what));
+                    // C04 speaks about calls in which no signature could be produced; a key whose
+                    // counter is out of range but which the library signs with anyway is the
+                    // business of C11/C13, the callback protocol itself was followed
+                    if !matches!(decoded, Decoded::OutOfRange { .. }) || !outcome.is_ok() {
+                        self.violate("C04", "cb-on-bad-key", "callback-automaton", format!("callback invoked although no signature could be produced ({})", what));
+                    }
                 }
             }
         }
